@@ -117,6 +117,26 @@ def premises(ctx, engine, m, req):
                    {"engine": engine, "nodes": [str(v) for v in m.G.nodes()], "edges": [[str(u), str(v)] for u, v in m.G.edges()]}, concrete=False)
 
 
+CYC_EQ_CMDS = {"kfdc", "kpcc", "walks"}     # commands of h_walkenc.ml that also offer <cmd>_eq (klaec / kmpec: handled in e1werr.py)
+
+
+def verified_equal(ctx, engine, impl, req):
+    """E1 decided by the EXTRACTED VERIFIED checker LinEquiv.milp_equiv_b (theorem milp_equiv_sound: the two LPs have the same
+    satisfying assignments and the same objective): the model's LP is rebuilt from the same request by <cmd>_eq, the
+    implementation's LP (as read back from HiGHS) is sent along on the wire of lp.ml.in's next_milp."""
+    cmd, _, rest = req.partition(" ")
+    if cmd not in CYC_EQ_CMDS:
+        return None
+    t = e1.impl_lp_tokens(impl)
+    if t is None:
+        ctx.count(engine, "verified_equivalence_not_representable"); return None
+    out = ctx.model.run([cmd + "_eq " + rest + " " + common.toks(t)])[0].strip()
+    ctx.count(engine, "verified_equivalence_checked")
+    if out == "1":
+        ctx.count(engine, "verified_equivalent"); return True
+    ctx.count(engine, "verified_not_equivalent"); return False
+
+
 def compare(ctx, engine, m, req, what=("cols", "rows", "obj", "sense")):
     """Diff the LP held by model object `m` against the Coq encoder's answer to `req`.
     Returns (diff list, impl dump)."""
@@ -131,6 +151,18 @@ def compare(ctx, engine, m, req, what=("cols", "rows", "obj", "sense")):
         d = ["model driver error: " + model["extra"]["error"]]
     else:
         d = lpdump.diff(impl, model, what=what)
+        if set(what) >= {"cols", "rows", "obj", "sense"}:
+            try:
+                ve = verified_equal(ctx, engine, impl, req)
+            except Exception as e:
+                ve = None; ctx.report(f"{engine}: verified LP comparison crashed: {e!r}", {"engine": engine}, concrete=False)
+            if ve is not None and ve != (not d):
+                # the Python diff and the verified checker disagree: trust the verified one, and say so
+                ctx.count(engine, "python_diff_and_verified_checker_disagree")
+                if ve is False and not d:
+                    d = ["the verified checker LinEquiv.milp_equiv_b rejects the equivalence of the two LPs (the Python diff saw none)"]
+                elif ve is True and d:
+                    ctx.notes.append({"verified_checker_accepts_although_python_diff_reports": d[:3]}); d = []
     ctx.count(engine, "cases"); ctx.count(engine, "rows_compared", len(impl["rows"])); ctx.count(engine, "cols_compared", len(impl["cols"]))
     ctx.count(engine, "disagreements" if d else "agreements")
     return d, impl
